@@ -74,11 +74,11 @@ func scenario(p params, bounds []int) *vexp.Scenario {
 			gc := &vsys.Script{Name: "gc"}
 			c := &vsys.Script{Name: "c", Children: []*vsys.Script{gc}}
 			t := &vsys.Script{Name: "t"}
-			if p.state == "killing-slow" || p.state == "stopping-paused" {
+			if p.state == "killing-slow" || p.state == "stopping-paused" || p.state == "grestart-paused" {
 				t.Children = []*vsys.Script{c}
 			}
 			released := false
-			if p.state == "stopping-paused" {
+			if p.state == "stopping-paused" || p.state == "grestart-paused" {
 				// the child's OnKill is held, so that t stays in its stopping phase until the driver releases it
 				c.OnKill = func(a *vsys.Act, ctx vivid.ActorContext, m *vivid.OnKill) {
 					vrt.Block(vrt.KYield, 0, "held OnKill of /p/t/c", func() bool { return released })
@@ -114,7 +114,16 @@ func scenario(p params, bounds []int) *vexp.Scenario {
 			}
 			par := &vsys.Script{Name: "p"}
 			par.Strategy = w.Decider("/p", p.state == "stopping-paused", dec)
-			if p.state == "stopping-paused" {
+			if p.state == "grestart-paused" {
+				// one-for-all: a failure of t is answered with a graceful restart, a failure of its sibling s with Resume
+				par.Strategy = vivid.OneForAllStrategy(vivid.SupervisionStrategyDecisionMakerFN(func(sc vivid.SupervisionContext) (vivid.SupervisionDecision, string) {
+					if f := sc.Child().First(); f != nil && f.GetPath() == "/p/s" {
+						return vivid.SupervisionDecisionResume, "scripted: sibling"
+					}
+					return vivid.SupervisionDecisionGracefulRestart, "scripted: target"
+				}))
+			}
+			if p.state == "stopping-paused" || p.state == "grestart-paused" {
 				// a sibling whose failure makes the one-for-all supervisor pause and stop all its children
 				par.Children = append(par.Children, &vsys.Script{Name: "s", OnMsg: func(a *vsys.Act, ctx vivid.ActorContext, m vsys.Msg) {
 					if m.ID == "boom" {
@@ -223,6 +232,13 @@ func scenario(p params, bounds []int) *vexp.Scenario {
 				vrt.QuiesceNoTimers()
 				w.Sys.Tell(w.Ref("/p/s"), vsys.Msg{ID: "boom"})
 				vrt.QuiesceNoTimers()
+			case "grestart-paused":
+				// t is in the middle of a graceful restart (waiting for its held child) when a failure of its sibling makes the
+				// one-for-all supervisor pause and then resume all children: the restarted t must not stay paused
+				w.Sys.Tell(killRef, vsys.Msg{ID: "boom"})
+				vrt.QuiesceNoTimers()
+				w.Sys.Tell(w.Ref("/p/s"), vsys.Msg{ID: "boom"})
+				vrt.QuiesceNoTimers()
 			}
 			pubsBefore := len(w.Pubs)
 			entriesBefore := len(w.Entries)
@@ -241,7 +257,7 @@ func scenario(p params, bounds []int) *vexp.Scenario {
 			}
 			vrt.Go("sender", doSends)
 			switch p.state {
-			case "stopping-paused":
+			case "stopping-paused", "grestart-paused":
 				released = true // the sends race the end of t's stopping phase
 			case "kill-now", "killing-slow":
 				w.Sys.Kill(killRef, false, "driver")
@@ -338,7 +354,7 @@ func scenario(p params, bounds []int) *vexp.Scenario {
 			}
 			_ = stashBudget
 			// (an escalated graceful restart / stop concerns /p: its child t is terminated with it, conservation is all that is required there)
-			mustProcess := p.state == "stash-unstash" || p.state == "fail-escalate-resume" || p.state == "running" || p.state == "pre-spawn-use" || p.state == "fail-resume" || p.state == "fail-restart" || p.state == "fail-grestart" ||
+			mustProcess := p.state == "grestart-paused" || p.state == "stash-unstash" || p.state == "fail-escalate-resume" || p.state == "running" || p.state == "pre-spawn-use" || p.state == "fail-resume" || p.state == "fail-restart" || p.state == "fail-grestart" ||
 				(p.state == "reused" && (p.prov == "parse" || p.prov == "clone")) // FindActor returns the registered Ref object itself, bound to the old incarnation like the ActorOf reference
 			if mustProcess {
 				for _, id := range ids {
@@ -381,7 +397,7 @@ func build(tier string) []*vexp.Scenario {
 		bounds = []int{0, 1, 2}
 	}
 	var out []*vexp.Scenario
-	states := []string{"stash-unstash", "fail-escalate-resume", "fail-escalate-grestart", "fail-escalate-gstop", "stash-restart", "stopping-paused", "running", "kill-now", "kill-poison", "killing-slow", "fail-stop", "fail-gstop", "fail-restart", "fail-grestart", "fail-resume", "killed", "reused", "zombie", "sys-stopped", "stash"}
+	states := []string{"grestart-paused", "stash-unstash", "fail-escalate-resume", "fail-escalate-grestart", "fail-escalate-gstop", "stash-restart", "stopping-paused", "running", "kill-now", "kill-poison", "killing-slow", "fail-stop", "fail-gstop", "fail-restart", "fail-grestart", "fail-resume", "killed", "reused", "zombie", "sys-stopped", "stash"}
 	provs := []string{"actorof-warm", "actorof-cold", "clone", "parse", "find"}
 	for _, st := range states {
 		for _, pv := range provs {
